@@ -17,14 +17,9 @@ Proof.
   f_equal; real_eq.
 Qed.
 
-Lemma two_F64 : litF 2 0 = Z2F 2.
-Proof. vm_compute. reflexivity. Qed.
-
-Lemma gen_params_F64 (a : area float) : params_of_tuple (gen_ll2cr_params F64 a) = ll2cr_params F64 a.
-Proof.
-  unfold gen_ll2cr_params, ll2cr_params, params_of_tuple.
-  cbn [lit F64 ofZ]. rewrite ?two_F64. reflexivity.
-Qed.
+(* binary64: no lemma -- the correspondence executes the generated definition itself (Model/C08_rungen.v) and compares
+   it bit for bit with the implementation, so float-level rewrites of the source (x * 0.5 for x / 2., b + a for a + b)
+   raise nothing as long as the bits agree *)
 
 (* ll2cr with the generated parameters *)
 Definition ll2cr_src {T} (OP : ops T) (a : area T) (fill : T) (pts : list (T * T)) : Z * list (T * T) :=
@@ -32,8 +27,6 @@ Definition ll2cr_src {T} (OP : ops T) (a : area T) (fill : T) (pts : list (T * T
 
 Lemma ll2cr_src_R a fill pts : ll2cr_src RO a fill pts = ll2cr RO a fill pts.
 Proof. unfold ll2cr_src, ll2cr. rewrite gen_params_R. reflexivity. Qed.
-Lemma ll2cr_src_F64 a fill pts : ll2cr_src F64 a fill pts = ll2cr F64 a fill pts.
-Proof. unfold ll2cr_src, ll2cr. rewrite gen_params_F64. reflexivity. Qed.
 
 Open Scope R_scope.
 Theorem ll2cr_src_is_area_map (proj : R * R -> R * R) a fill lonlats :
